@@ -122,6 +122,51 @@ def run(ck: Check):
         if not ok:
             ck.disagree("load_state_dict accepted a checkpoint of a layer with another geometry and installed wiring that does not fit",
                         {"name": name}, signature={"what": "foreign-checkpoint", "name": name})
+    # state that decides the eval function but is set after construction: wiring written by hand on layer.indices (the code
+    # generator and forward both read it), the frozen mode of the learnable thermometer.  Saved with the state, rebuilt with the same
+    # constructor arguments under another seed, loaded: same function
+    from torchlogix.layers import LearnableThermometerThresholding as LTT
+    for name in ("conv-hand-wired-level1", "conv-hand-wired-level0", "dense-hand-wired", "thermometer-frozen"):
+        ck.case({"kind": "post-construction-state", "name": name}, nontrivial=True, kind="post-construction-state")
+        torch.manual_seed(ck.seed + 11)
+        if name.startswith("conv"):
+            mk = lambda: LogicConv2d(in_dim=(5, 5), device="cpu", channels=2, num_kernels=3, tree_depth=2, receptive_field_size=2,
+                                     weight_init="random")
+            src = mk()
+            if name.endswith("level1"):
+                src.indices[1] = (torch.tensor([0, 1]), torch.tensor([3, 2]))
+            else:
+                a0, b0 = src.indices[0]
+                src.indices[0] = (b0.clone(), a0.clone())           # swap the two inputs of every leaf gate
+            x = (torch.rand(16, 2, 5, 5) > 0.5).float()
+        elif name == "dense-hand-wired":
+            mk = lambda: LogicDense(6, 8, device="cpu", weight_init="random")
+            src = mk()
+            src.indices = (torch.tensor([5, 4, 3, 2, 1, 0, 0, 5]), torch.tensor([0, 1, 2, 3, 4, 5, 3, 2]))
+            x = (torch.rand(16, 6) > 0.5).float()
+        else:
+            mk = lambda: LTT(init_thresholds=[1.0, 2.0, 3.0])
+            src = mk()
+            src.freeze_thresholds()
+            x = torch.rand(4, 3, 3) * 4
+        src.eval()
+        with torch.no_grad():
+            want = src(x)
+        torch.manual_seed(ck.seed + 12)
+        dst = mk()
+        try:
+            dst.load_state_dict(src.state_dict())
+            dst.eval()
+            with torch.no_grad():
+                got = dst(x)
+        except Exception as e:
+            ck.disagree("the saved state of a layer cannot be loaded into a layer built with the same constructor arguments",
+                        {"name": name}, observed=repr(e)[:200], signature={"what": "post-construction-state", "name": name})
+            continue
+        if not torch.equal(want, got):
+            ck.disagree("a layer rebuilt with the same constructor arguments and loaded from the saved state computes a different eval function "
+                        "(state set after construction is saved but not restored)", {"name": name, "differing_values": int((want != got).sum())},
+                        signature={"what": "post-construction-state", "name": name})
     return ck.finish()
 
 
